@@ -216,3 +216,90 @@ theorem attach_attached_child_keeps_old_context (h : Heap) (child to q : Id) (f 
   simp [hp]
 
 end Ucfg.C15
+
+namespace Ucfg.C15
+open Ucfg.Forest
+
+/-! ### fields.setAt pads with nil nodes that carry their index -/
+
+/-- IndexedFrom survives an extension of the heap and a rewrite of the list's own node -/
+theorem indexed_frame (h h' : Heap) (to : Id) (a : List Id) (hidx : IndexedFrom h to 0 a)
+    (hframe : ∀ (i : Nat) (nd : Node), i ≠ to → h[i]? = some nd → h'[i]? = some nd) (hto : to ∉ a) :
+    IndexedFrom h' to 0 a := by
+  intro j c hj
+  obtain ⟨b, hb⟩ := hidx j c hj
+  have hne : c ≠ to := fun e => hto (e ▸ List.mem_of_getElem? hj)
+  exact ⟨b, hframe c _ hne hb⟩
+
+theorem padTo_spec : ∀ (n : Nat) (h : Heap) (to : Id) (idx : Nat) (p : Option Id) (f : String)
+    (d : List (String × Id)) (a : List Id),
+    getSub h to = some (p, f, d, a) → IndexedFrom h to 0 a → to ∉ a → (∀ c ∈ a, c < h.length) →
+    idx ≤ a.length + n →
+    ∃ pad, getSub (padTo n h to idx) to = some (p, f, d, a ++ pad) ∧ (a ++ pad).length = max a.length idx ∧
+      IndexedFrom (padTo n h to idx) to 0 (a ++ pad) := by
+  intro n
+  induction n with
+  | zero =>
+    intro h to idx p f d a hg hidx _ _ hle
+    refine ⟨[], by simpa [padTo] using hg, by simp; omega, by simpa [padTo] using hidx⟩
+  | succ n ih =>
+    intro h to idx p f d a hg hidx hto hlt hle
+    unfold padTo
+    rw [hg]
+    simp only
+    by_cases hlen : a.length < idx
+    · rw [if_pos hlen]
+      have htol := getSub_lt hg
+      have hne : h.length ≠ to := Nat.ne_of_gt htol
+      have hnode : (h ++ [nilNode (some to) (idxName a.length)])[to]? = some ⟨p, f, .sub d a⟩ := by
+        rw [List.getElem?_append_left htol]; exact getSub_node hg
+      have hg1 : getSub (setBody (h ++ [nilNode (some to) (idxName a.length)]) to (.sub d (a ++ [h.length]))) to =
+          some (p, f, d, a ++ [h.length]) := getSub_of_node (setBody_same _ _ _ _ hnode)
+      have hframe : ∀ (i : Nat) (nd : Node), i ≠ to → h[i]? = some nd →
+          (setBody (h ++ [nilNode (some to) (idxName a.length)]) to (.sub d (a ++ [h.length])))[i]? = some nd := by
+        intro i nd hi hnd
+        rw [setBody_other _ _ _ _ hi]
+        have hl : i < h.length := by
+          rcases Nat.lt_or_ge i h.length with hl | hl
+          · exact hl
+          · rw [List.getElem?_eq_none hl] at hnd; cases hnd
+        rw [List.getElem?_append_left hl]; exact hnd
+      have hidx1 : IndexedFrom (setBody (h ++ [nilNode (some to) (idxName a.length)]) to (.sub d (a ++ [h.length]))) to 0
+          (a ++ [h.length]) := by
+        intro j c hj
+        by_cases hja : j < a.length
+        · rw [List.getElem?_append_left hja] at hj
+          exact indexed_frame h _ to a hidx hframe hto j c hj
+        · have hj' : j = a.length := by
+            have : j < (a ++ [h.length]).length := by
+              rcases Nat.lt_or_ge j (a ++ [h.length]).length with hl | hl
+              · exact hl
+              · rw [List.getElem?_eq_none hl] at hj; cases hj
+            simp at this; omega
+          subst hj'
+          simp at hj
+          subst hj
+          refine ⟨.prim "nil" "", ?_⟩
+          rw [setBody_other _ _ _ _ hne]
+          simp [nilNode]
+      have hto1 : to ∉ a ++ [h.length] := by
+        simp only [List.mem_append, List.mem_singleton, not_or]
+        exact ⟨hto, fun e => hne e.symm⟩
+      have hlt1 : ∀ c ∈ a ++ [h.length], c < (setBody (h ++ [nilNode (some to) (idxName a.length)]) to (.sub d (a ++ [h.length]))).length := by
+        intro c hc
+        rw [setBody_length]
+        simp only [List.mem_append, List.mem_singleton] at hc
+        rcases hc with hc | hc
+        · have hc' := hlt c hc
+          simp only [List.length_append, List.length_singleton]
+          exact Nat.lt_succ_of_lt hc'
+        · subst hc; simp
+      obtain ⟨pad, hgp, hlenp, hidxp⟩ := ih _ to idx p f d (a ++ [h.length]) hg1 hidx1 hto1 hlt1 (by simp; omega)
+      refine ⟨h.length :: pad, by simpa using hgp, ?_, by simpa using hidxp⟩
+      have : (a ++ [h.length] ++ pad).length = max (a ++ [h.length]).length idx := hlenp
+      simp at this ⊢
+      omega
+    · rw [if_neg hlen]
+      refine ⟨[], by simpa using hg, by simp; omega, by simpa using hidx⟩
+
+end Ucfg.C15
